@@ -159,3 +159,23 @@ class Rng(random.Random):
 
     def chance(self, p):
         return self.random() < p
+
+
+CONTAINER_KINDS = ["list", "list", "list", "tuple", "iter", "gen", "chain"]
+
+
+def container(kind, items):
+    """the same items in another container: where the documentation asks for "a list / collection of ..." and the code
+    makes one pass, a tuple, a one-shot iterator, a generator or an itertools.chain of two lists is as good as a list"""
+    import itertools
+    items = list(items)
+    if kind == "tuple":
+        return tuple(items)
+    if kind == "iter":
+        return iter(items)
+    if kind == "gen":
+        return (x for x in items)
+    if kind == "chain":
+        k = len(items) // 2
+        return itertools.chain(items[:k], items[k:])
+    return items
